@@ -330,9 +330,12 @@ void case_fault(uint64_t idx, vh::Rng& rng) {
     }
     // PBF from a real file exercises the parser's own fd path
     const bool from_file = !via_mock && rng.coin();
+    // a Reader that is asked for no entity type at all (header only): the data part is never parsed,
+    // the pipeline has to shut down and release everything all the same (valid inputs only)
+    const bool want_nothing = scenario == 0 && rng.chance(1, 5);
     const std::string cfg = vh::fmt("%s %s pool=%d inq=%d outq=%d pbf_pool=%d %s%s header=%d stop_after=%ld via=%s", SC[scenario], FMT_NAME[fmt], nthreads, inq, outq, pbf_pool,
                                     via_mock ? "mock-decompressor" : from_file ? "file" : "memory", fault_class == "none" ? "" : (" fault=" + fault_class).c_str(), use_header, stop_after,
-                                    via_close ? "close" : "destructor");
+                                    via_close ? "close" : "destructor") + (want_nothing ? " entity-bits=nothing" : "");
     vh::set_case_desc("%s", cfg.c_str());
     const std::string path = g_dir + "/in." + fmt_suffix(fmt);
     if (from_file) spit(path, bytes);
@@ -353,8 +356,9 @@ void case_fault(uint64_t idx, vh::Rng& rng) {
             std::unique_ptr<osmium::io::Reader> reader;
             const std::string suffix = std::string(fmt_suffix(fmt)) + (via_mock ? ".gz" : "");
             try {
-                if (from_file) reader.reset(new osmium::io::Reader{osmium::io::File{path, suffix}, pool});
-                else reader.reset(new osmium::io::Reader{osmium::io::File{bytes.data(), bytes.size(), suffix}, pool});
+                const auto bits = want_nothing ? osmium::osm_entity_bits::nothing : osmium::osm_entity_bits::all;
+                if (from_file) reader.reset(new osmium::io::Reader{osmium::io::File{path, suffix}, pool, bits});
+                else reader.reset(new osmium::io::Reader{osmium::io::File{bytes.data(), bytes.size(), suffix}, pool, bits});
             } catch (const std::exception& e) {
                 out.events.push_back(std::string("ctor:throw(") + demangle(typeid(e).name()) + ": " + e.what() + ")");
                 ++out.throws; out.first_error_type = demangle(typeid(e).name()); out.first_error = e.what();
@@ -477,6 +481,7 @@ void case_fault(uint64_t idx, vh::Rng& rng) {
     vh::count(std::string("scenario_") + SC[scenario]);
     vh::count("api_events", out.events.size());
     if (scenario == 0 && stop_after >= 0) vh::count("early_stops");
+    if (want_nothing) { vh::count("readers_asked_for_no_entity_type"); if (!out.got.empty()) vh::violation(std::string("objects delivered although no entity type was asked for: ") + FMT_NAME[fmt], cfg); }
     vh::count("hook_events", vhk::hs().events.load());
     vh::cover("fault_class", fault_class + " / " + FMT_NAME[fmt]);
     vh::cover("input", via_mock ? "mock" : from_file ? "file" : "memory");
